@@ -204,7 +204,8 @@ def exec_case(case):
                                 want, wtol = new, ntol
                             else:
                                 want = mom * st_[0] + (1 - mom) * new
-                                wtol = mom * st_[1] + (1 - mom) * ntol + 8 * u * abs(want)
+                                # three roundings per update (two products, one sum), each up to eta/2 in the subnormal range
+                                wtol = mom * st_[1] + (1 - mom) * ntol + 8 * u * abs(want) + 4 * gen.ETA[dtype]
                             ref[n][which] = (want, wtol)
                             if not abs(got - want) <= wtol + 1e-300:
                                 sentinel = st_ is not None and prev_is_one and not adopted
